@@ -16,7 +16,9 @@ EXTENDS Naturals, Integers, Sequences, FiniteSets, TLC
 
 CONSTANTS Retries,     \* retry budget of every call
           Ver,         \* 2 or 3: protocol version of the device
-          CtrMod       \* modulus at which the model device expects the counter to wrap (4096 for the real one)
+          CtrMod,      \* modulus at which the model device expects the counter to wrap (4096 for the real one)
+          HSRetries,   \* handshake retry budget of an authentication started implicitly by send (LAN.RETRIES = 3)
+          DevLevel     \* BOOLEAN: calls are made through the Device layer (authenticate must fail with AuthenticationError only)
 
 NoCall == [op |-> "none"]
 ConnInit == [open |-> FALSE, cclosed |-> FALSE, pclosed |-> FALSE,
@@ -26,7 +28,9 @@ ConnInit == [open |-> FALSE, cclosed |-> FALSE, pclosed |-> FALSE,
              latest |-> 0,        \* the newest of them
              answered |-> 0,      \* newest key id whose genuine reply has been delivered (in order, nothing older after it)
              racy |-> FALSE,      \* replies were lost / forged / delivered out of order: client and device keys may differ (A1/A2)
-             stray |-> 0]         \* messages delivered that nobody was waiting for (they sit in the client's queue)
+             stray |-> 0,         \* messages delivered that nobody was waiting for (they sit in the client's queue)
+             authvalid |-> FALSE, \* a genuine handshake reply was accepted and the 12 h lifetime has not elapsed since
+             hsfail |-> 0]        \* handshake requests written while ~authvalid (not yet genuinely answered)
 
 MonInit == [ call |-> NoCall,
              conns |-> <<>>,               \* one record per connection opened so far
@@ -46,22 +50,26 @@ AllowedOutcomes == {"frames", "authok", "proto", "auth", "timeout", "cancelled"}
 NReplies(cls) == CASE cls = "none" -> 0 [] cls \in {"valid+unsolicited", "dup"} -> 2 [] OTHER -> 1
 ValidReply(cls) == cls = "valid"
 
+(* counter discipline: previous + 1; the only other admissible value is 0 when previous + 1 reaches the 12-bit mask the code     *)
+(* uses or the width of the 2-byte field (DESIGN 6.1 F2)                                                                         *)
+CtrOK(last, ctr) == ctr = (last + 1) % CtrMod \/ (ctr = 0 /\ (last + 1) \in {4096, 65536})
 (* ---------------------------------------------------------------------------------------------- *)
 OnCall(m, e) ==
   LET quiet == m.fly = 0 /\ (m.cur = 0 \/ m.conns[m.cur].stray = 0) IN
-  [ FlagIf(m, m.call.op # "none", "harness: call while another call is active")
+  [ FlagIf(m, m.call.op # "none", <<"harness", "call while another call is active">>)
     EXCEPT !.call = [op |-> e.op, cr |-> e.cr, tx |-> 0, hs |-> 0, resp |-> FALSE, txAfterResp |-> FALSE,
                      benign |-> quiet, awaiting |-> FALSE, genuine |-> FALSE, everConnected |-> m.cur # 0, cancelled |-> FALSE,
+                     silent |-> TRUE,       \* nothing but silence from the network so far: no delivery, loss, close, refusal or cancellation
                      canSucceed |-> Ver = 2 \/ (e.op = "send" /\ m.stored = "good")
                                     \/ (e.op = "auth" /\ (e.cr = "good" \/ (e.cr = "cached" /\ m.stored = "good")))] ]
 
 OnConnOK(m, e) ==
   [ m EXCEPT !.nconn = e.c, !.cur = e.c,
              !.conns = Append(m.conns, [ConnInit EXCEPT !.open = TRUE]),
-             !.bad = IF e.c # Len(m.conns) + 1 THEN @ \cup {"harness: connection ids are not consecutive"} ELSE @,
+             !.bad = IF e.c # Len(m.conns) + 1 THEN @ \cup {<<"harness", "connection ids are not consecutive">>} ELSE @,
              !.call = IF m.call.op = "none" THEN @ ELSE [@ EXCEPT !.everConnected = TRUE] ]
 
-OnConnFail(m, e) == IF m.call.op = "none" THEN m ELSE [m EXCEPT !.call.benign = FALSE]
+OnConnFail(m, e) == IF m.call.op = "none" THEN m ELSE [m EXCEPT !.call.benign = FALSE, !.call.silent = FALSE]
 
 OnClose(m, e) ==
   LET m1 == [m EXCEPT !.conns[e.c].cclosed = TRUE, !.cur = IF m.cur = e.c THEN 0 ELSE m.cur] IN
@@ -69,7 +77,7 @@ OnClose(m, e) ==
 
 OnPeerClose(m, e) ==
   [ m EXCEPT !.conns[e.c].pclosed = TRUE,
-             !.call = IF m.call.op = "none" THEN @ ELSE [@ EXCEPT !.benign = FALSE] ]
+             !.call = IF m.call.op = "none" THEN @ ELSE [@ EXCEPT !.benign = FALSE, !.silent = FALSE] ]
 
 (* ---- a packet written by the client, as decoded by the device ---- *)
 OnTx(m, e) ==
@@ -79,38 +87,44 @@ OnTx(m, e) ==
       isData == e.t = "DATA"
       v3 == Ver = 3
       wantTok == IF m.call.op = "auth" /\ m.call.cr # "cached" THEN m.call.cr ELSE m.stored
-      b1 == IF v3 /\ ~isHS /\ ~cn.hsok THEN {"C07: data written before a successful handshake on this connection"} ELSE {}
-      b2 == IF v3 /\ isHS /\ e.tok # wantTok THEN {"C07: handshake request does not carry the configured token"} ELSE {}
-      b3 == IF v3 /\ cn.last >= 0 /\ e.ctr # (cn.last + 1) % CtrMod /\ ~(e.ctr = 0 /\ (cn.last + 1) \in {4096, 65536})
-               THEN {"C07: packet counter is not previous + 1"} ELSE {}
-      b3b == IF v3 /\ cn.last < 0 /\ e.ctr # 0 THEN {"C07: first packet on a connection does not start the counter at 0"} ELSE {}
+      b1 == IF v3 /\ ~isHS /\ ~cn.hsok THEN {<<"C07", "data written before a successful handshake on this connection">>} ELSE {}
+      b2 == IF v3 /\ isHS /\ e.tok # wantTok THEN {<<"C07", "handshake request does not carry the configured token">>} ELSE {}
+      b3 == IF v3 /\ cn.last >= 0 /\ ~CtrOK(cn.last, e.ctr)
+               THEN {<<"C07", "packet counter is not previous + 1">>} ELSE {}
+      b3b == IF v3 /\ cn.last < 0 /\ e.ctr # 0 THEN {<<"C07", "first packet on a connection does not start the counter at 0">>} ELSE {}
       b4 == IF v3 /\ isData /\ cn.hsok /\ (e.k = 0 \/ e.k \notin cn.issued)
-               THEN {"C07: data packet is not under a session key derived on this connection"} ELSE {}
+               THEN {<<"C07", "data packet is not under a session key derived on this connection">>} ELSE {}
       b5 == IF v3 /\ isData /\ cn.hsok /\ ~cn.racy /\ cn.answered = cn.latest /\ e.k # cn.latest
-               THEN {"C07: data packet is not under the key of the latest handshake on this connection"} ELSE {}
-      b6 == IF m.mustHS = c /\ ~isHS THEN {"C07: no new handshake after the 12 h authentication lifetime elapsed"} ELSE {}
+               THEN {<<"C07", "data packet is not under the key of the latest handshake on this connection">>} ELSE {}
+      b6 == IF m.mustHS = c /\ ~isHS THEN {<<"C07", "no new handshake after the 12 h authentication lifetime elapsed">>} ELSE {}
       b7 == IF m.mustNew # 0 /\ (c <= m.mustNew \/ (v3 /\ ~isHS))
-               THEN {"C07: exchange after the connection lifetime elapsed did not start with a handshake on a new connection"} ELSE {}
+               THEN {<<"C07", "exchange after the connection lifetime elapsed did not start with a handshake on a new connection">>} ELSE {}
       b7b == IF m.mustNew # 0 /\ c > m.mustNew /\ ~m.conns[m.mustNew].cclosed /\ ~m.conns[m.mustNew].pclosed
-               THEN {"C07: expired connection was not closed"} ELSE {}
-      b8 == IF ~e.wf THEN {"C05/C02: packet on the wire is not decodable by the device"} ELSE {}
-      b9 == IF cn.cclosed \/ ~cn.open THEN {"harness: transmission on a closed connection"} ELSE {}
-      b10 == IF isData /\ m.call.op = "send" /\ m.call.tx + 1 > Retries THEN {"C08: more transmissions than the retry budget"} ELSE {}
-      b11 == IF isData /\ m.call.op = "send" /\ m.call.resp THEN {"C08: retransmission after a response had arrived"} ELSE {}
-      b12 == IF isData /\ m.call.op # "send" THEN {"C06: something other than handshake requests sent during authentication"} ELSE {}
-      b13 == IF isHS /\ m.call.op # "none" /\ m.call.hs + 1 > Retries THEN {"C08: more handshake transmissions than the retry budget"} ELSE {}
+               THEN {<<"C07", "expired connection was not closed">>} ELSE {}
+      b8 == IF ~e.wf THEN {<<"C05", "packet on the wire is not decodable by the device">>} ELSE {}
+      b9 == IF cn.cclosed \/ ~cn.open THEN {<<"harness", "transmission on a closed connection">>} ELSE {}
+      b10 == IF isData /\ m.call.op = "send" /\ m.call.tx + 1 > Retries THEN {<<"C08", "more transmissions than the retry budget">>} ELSE {}
+      b11 == IF isData /\ m.call.op = "send" /\ m.call.resp THEN {<<"C08", "retransmission after a response had arrived">>} ELSE {}
+      b12 == IF isData /\ m.call.op # "send" THEN {<<"C06", "something other than handshake requests sent during authentication">>} ELSE {}
+      b13 == IF isHS /\ m.call.op # "none" /\ m.call.hs + 1 > (IF m.call.op = "auth" THEN Retries ELSE HSRetries) THEN {<<"C08", "more handshake transmissions than the retry budget">>} ELSE {}
+      b14 == IF v3 /\ isData /\ ~cn.authvalid
+               THEN {<<"C07", "data written while the session is not authenticated (no accepted handshake on this connection, or none since the 12 h lifetime elapsed)">>} ELSE {}
+      b15 == IF v3 /\ isData /\ ~cn.authvalid /\ cn.hsfail > 0
+               THEN {<<"C06", "data sent although the handshake was not genuinely answered: the session did not stay unauthenticated">>} ELSE {}
       newIssued == IF isHS /\ e.k # 0 THEN cn.issued \cup {e.k} ELSE cn.issued
       (* a handshake request whose genuine reply is not yet delivered makes keys potentially differ until it is *)
       racy2 == cn.racy
       cn2 == [cn EXCEPT !.last = IF v3 THEN e.ctr ELSE -1, !.issued = newIssued,
                         !.latest = IF isHS /\ e.k # 0 THEN e.k ELSE @,
                         !.racy = racy2,
-                        !.stray = IF isHS THEN 0 ELSE @]           \* the client flushes its queue before a handshake request
+                        !.stray = IF isHS THEN 0 ELSE @,           \* the client flushes its queue before a handshake request
+                        !.hsfail = IF isHS /\ ~cn.authvalid THEN @ + 1 ELSE @]
       call2 == IF m.call.op = "none" THEN m.call
                ELSE [m.call EXCEPT !.tx = IF isData THEN @ + 1 ELSE @, !.hs = IF isHS THEN @ + 1 ELSE @,
                                    !.awaiting = TRUE,
-                                   !.benign = @ /\ ValidReply(e.reply)]
-  IN [ m EXCEPT !.bad = @ \cup b1 \cup b2 \cup b3 \cup b3b \cup b4 \cup b5 \cup b6 \cup b7 \cup b7b \cup b8 \cup b9 \cup b10 \cup b11 \cup b12 \cup b13,
+                                   !.benign = @ /\ ValidReply(e.reply),
+                                   !.silent = @ /\ e.reply = "none"]
+  IN [ m EXCEPT !.bad = @ \cup b1 \cup b2 \cup b3 \cup b3b \cup b4 \cup b5 \cup b6 \cup b7 \cup b7b \cup b8 \cup b9 \cup b10 \cup b11 \cup b12 \cup b13 \cup b14 \cup b15,
                 !.conns[c] = cn2, !.call = call2,
                 !.fly = @ + NReplies(e.reply),
                 !.mustHS = IF m.mustHS = c THEN 0 ELSE @,
@@ -126,27 +140,30 @@ OnDeliver(m, e) ==
       cn2 == [cn EXCEPT !.hsok = @ \/ (genHS /\ e.live /\ awaited),
                         !.answered = IF genHS /\ e.live /\ awaited THEN e.k ELSE @,
                         !.racy = @ \/ (genHS /\ ~inOrder) \/ (genHS /\ ~awaited),
-                        !.stray = IF e.live /\ ~awaited THEN @ + 1 ELSE @]
+                        !.stray = IF e.live /\ ~awaited THEN @ + 1 ELSE @,
+                        !.authvalid = @ \/ (genHS /\ e.live /\ awaited),
+                        !.hsfail = IF genHS /\ e.live /\ awaited THEN 0 ELSE @]
       call2 == IF m.call.op = "none" THEN m.call
                ELSE [m.call EXCEPT !.awaiting = IF awaited THEN FALSE ELSE @,
                                    !.resp = @ \/ isResp,
                                    !.genuine = @ \/ (genHS /\ awaited),
-                                   !.benign = @ /\ awaited /\ e.gen]
+                                   !.benign = @ /\ awaited /\ e.gen,
+                                   !.silent = FALSE]
   IN [ m EXCEPT !.conns[c] = cn2, !.call = call2, !.fly = IF @ > 0 THEN @ - 1 ELSE 0 ]
 
 OnLost(m, e) ==
   [ m EXCEPT !.fly = IF @ > 0 THEN @ - 1 ELSE 0,
              !.conns[e.c].racy = @ \/ (e.m = "HSR"),
-             !.call = IF m.call.op = "none" THEN @ ELSE [@ EXCEPT !.benign = FALSE] ]
+             !.call = IF m.call.op = "none" THEN @ ELSE [@ EXCEPT !.benign = FALSE, !.silent = FALSE] ]
 
 OnTimer(m, e) ==
   IF m.call.op = "none" THEN m
   ELSE [m EXCEPT !.call.benign = @ /\ ~m.call.awaiting]     \* a timer firing while a reply is awaited = the device was not prompt
 
-OnCancel(m, e) == IF m.call.op = "none" THEN m ELSE [m EXCEPT !.call.benign = FALSE]
+OnCancel(m, e) == IF m.call.op = "none" THEN m ELSE [m EXCEPT !.call.benign = FALSE, !.call.silent = FALSE]
 
 OnJumpAuth(m, e) ==
-  IF m.cur # 0 /\ m.conns[m.cur].hsok THEN [m EXCEPT !.mustHS = m.cur] ELSE m
+  IF m.cur # 0 /\ m.conns[m.cur].hsok THEN [m EXCEPT !.mustHS = m.cur, !.conns[m.cur].authvalid = FALSE] ELSE m
 OnJumpLife(m, e) ==
   IF m.cur # 0 THEN [m EXCEPT !.mustNew = m.cur, !.mustHS = 0] ELSE m
 
@@ -154,30 +171,43 @@ OnRet(m, e) ==
   LET cl == m.call
       ok == Success(e.r)
       failedAuth == cl.op = "auth" /\ ~ok
-      b1 == IF e.r \notin AllowedOutcomes THEN {"C09: exception other than protocol/authentication error or timeout escaped the transport"} ELSE {}
-      b2 == IF cl.op = "send" /\ e.r = "frames" /\ cl.tx = 0 THEN {"C08: frames returned although the request was never transmitted"} ELSE {}
-      b3 == IF cl.op = "send" /\ e.r = "frames" /\ e.n = 0 THEN {"C08: success without any response"} ELSE {}
+      b1 == IF e.r \notin AllowedOutcomes THEN {<<"C09", "exception other than protocol/authentication error or timeout escaped the transport">>} ELSE {}
+      b2 == IF cl.op = "send" /\ e.r = "frames" /\ cl.tx = 0 THEN {<<"C08", "frames returned although the request was never transmitted">>} ELSE {}
+      b3 == IF cl.op = "send" /\ e.r = "frames" /\ e.n = 0 THEN {<<"C08", "success without any response">>} ELSE {}
       (* timeout "no response" from a connected exchange means the budget was used up *)
       b4 == IF cl.op = "send" /\ e.r = "timeout" /\ cl.tx > 0 /\ cl.tx < Retries /\ ~cl.cancelled
-               THEN {"C08: gave up before the retry budget was exhausted"} ELSE {}
-      b5 == IF m.prevFailed /\ cl.benign /\ cl.canSucceed /\ ~ok THEN {"C08: exchange with a promptly responding device failed after a failed exchange"} ELSE {}
+               THEN {<<"C08", "gave up before the retry budget was exhausted">>} ELSE {}
+      b5 == IF m.prevFailed /\ cl.benign /\ cl.canSucceed /\ ~ok THEN {<<"C08", "exchange with a promptly responding device failed after a failed exchange">>} ELSE {}
       b5b == IF ~m.prevFailed /\ cl.benign /\ cl.canSucceed /\ ~ok
-               THEN {"C08: exchange with a promptly responding device failed"} ELSE {}
-      b6 == IF failedAuth /\ ~cl.genuine /\ e.stored # m.stored THEN {"C06: failed authentication replaced the stored token/key"} ELSE {}
-      b7 == IF cl.op = "auth" /\ ok /\ cl.cr # "cached" /\ e.stored # cl.cr THEN {"C06: successful authentication did not store the presented token/key"} ELSE {}
-      b8 == IF cl.op = "auth" /\ ok /\ cl.cr = "bad" THEN {"C06: authentication succeeded with credentials the device does not know"} ELSE {}
-      b9 == IF cl.op = "send" /\ e.stored # m.stored THEN {"C06: send changed the stored token/key"} ELSE {}
-      b10 == IF cl.op = "auth" /\ ok /\ (m.cur = 0 \/ ~m.conns[m.cur].hsok)
-               THEN {"C06: authentication reported success without a genuine handshake reply having been delivered"} ELSE {}
-  IN [ m EXCEPT !.bad = @ \cup b1 \cup b2 \cup b3 \cup b4 \cup b5 \cup b5b \cup b6 \cup b7 \cup b8 \cup b9 \cup b10,
+               THEN {<<"C08", "exchange with a promptly responding device failed">>} ELSE {}
+      b6 == IF failedAuth /\ ~cl.genuine /\ e.stored # m.stored THEN {<<"C06", "failed authentication replaced the stored token/key">>} ELSE {}
+      b7 == IF cl.op = "auth" /\ ok /\ cl.cr # "cached" /\ e.stored # cl.cr THEN {<<"C06", "successful authentication did not store the presented token/key">>} ELSE {}
+      b8 == IF cl.op = "auth" /\ ok /\ cl.cr = "bad" THEN {<<"C06", "authentication succeeded with credentials the device does not know">>} ELSE {}
+      b9 == IF cl.op = "send" /\ e.stored # m.stored THEN {<<"C06", "send changed the stored token/key">>} ELSE {}
+      b10 == IF cl.op = "auth" /\ ok /\ (m.cur = 0 \/ ~m.conns[m.cur].hsok \/ ~cl.genuine)
+               THEN {<<"C06", "authentication reported success without a genuine handshake reply having been delivered">>} ELSE {}
+      (* every transmission met with silence and nothing else happened: the budget must be used up and the result must be a timeout *)
+      b11 == IF cl.op = "send" /\ cl.silent /\ cl.tx > 0 /\ (e.r # "timeout" \/ cl.tx # Retries)
+               THEN {<<"C08", "unanswered request did not end in a timeout after exactly `retries` transmissions">>} ELSE {}
+      b12 == IF DevLevel /\ cl.op = "auth" /\ ~ok /\ e.r \notin {"auth", "cancelled"}
+               THEN {<<"C06", "device-level authenticate failed with something other than an authentication error">>} ELSE {}
+  IN [ m EXCEPT !.bad = @ \cup b1 \cup b2 \cup b3 \cup b4 \cup b5 \cup b5b \cup b6 \cup b7 \cup b8 \cup b9 \cup b10 \cup b11 \cup b12,
                 !.call = NoCall, !.stored = e.stored, !.prevFailed = ~ok,
                 !.conns = [c \in 1..Len(m.conns) |-> IF c = m.cur /\ e.r = "frames" THEN [m.conns[c] EXCEPT !.stray = 0] ELSE m.conns[c]] ]
+
+(* a device-level operation (AirConditioner.refresh) built on one or more exchanges has returned:      *)
+(* e.raised = it raised; e.online = the device's online flag; e.frames = frames its exchanges returned *)
+OnDevRet(m, e) ==
+  LET b1 == IF e.raised THEN {<<"C09", "device-level operation raised instead of reporting an unresponsive device">>} ELSE {}
+      b2 == IF ~e.raised /\ e.frames = 0 /\ e.online THEN {<<"C08", "device reported online although no exchange returned a response">>} ELSE {}
+      b3 == IF ~e.raised /\ e.frames > 0 /\ ~e.online THEN {<<"C08", "device reported offline although a response was returned">>} ELSE {}
+  IN [m EXCEPT !.bad = @ \cup b1 \cup b2 \cup b3]
 
 MonStep(m, e) ==
   CASE e.e = "call" -> OnCall(m, e)
     [] e.e = "connok" -> OnConnOK(m, e)
     [] e.e \in {"connrefuse", "connhang"} -> OnConnFail(m, e)
-    [] e.e = "connreq" -> m
+    [] e.e \in {"connreq", "devcall"} -> m
     [] e.e = "close" -> OnClose(m, e)
     [] e.e = "peerclose" -> OnPeerClose(m, e)
     [] e.e = "tx" -> OnTx(m, e)
@@ -188,7 +218,8 @@ MonStep(m, e) ==
     [] e.e = "jumpauth" -> OnJumpAuth(m, e)
     [] e.e = "jumplife" -> OnJumpLife(m, e)
     [] e.e = "ret" -> OnRet(m, e)
-    [] OTHER -> Flag(m, "harness: unknown event")
+    [] e.e = "devret" -> OnDevRet(m, e)
+    [] OTHER -> Flag(m, <<"harness", "unknown event">>)
 
 RECURSIVE MonSteps(_, _)
 MonSteps(m, es) == IF es = <<>> THEN m ELSE MonSteps(MonStep(m, Head(es)), Tail(es))
